@@ -35,6 +35,18 @@ static void q_call_rcu(struct rcu_head *head, void (*func)(struct rcu_head *head
 	F->call_rcu(head, func);
 }
 
+/* planned suspension of the next queue operation of the calling thread (set per op, consumed once) */
+static __thread int stall_ord;
+static __thread uint32_t stall_len;
+
+static void plan_stall(void)
+{
+	if (stall_ord) {
+		usim_stall_plan(stall_ord, stall_len);
+		stall_ord = 0;
+	}
+}
+
 static void enq(int id, struct lnode *n)
 {
 	int i;
@@ -47,7 +59,9 @@ static void enq(int id, struct lnode *n)
 	cds_lfq_node_init_rcu(&n->n);
 	F->read_lock();
 	i = wgl_begin(&H, WQ_ENQ, 0, id);
+	plan_stall();
 	cds_lfq_enqueue_rcu(&q, &n->n);
+	usim_stall_cancel();
 	wgl_end(&H, i, -1);
 	F->read_unlock();
 }
@@ -60,7 +74,9 @@ static struct lnode *deq(void)
 
 	F->read_lock();
 	i = wgl_begin(&H, WQ_DEQ, 0, 0);
+	plan_stall();
 	r = cds_lfq_dequeue_rcu(&q);
+	usim_stall_cancel();
 	if (r) {
 		if (r->dummy)
 			usim_fail("lfq-dummy-returned", "cds_lfq_dequeue_rcu returned an internal dummy node");
@@ -79,6 +95,9 @@ static void do_op(struct op *op)
 
 	if (H.n + 2 > WGL_MAXOPS - 20)
 		return;
+	/* some operations are suspended for a while between two of their shared-memory accesses */
+	stall_ord = op->a;
+	stall_len = (uint32_t) op->b;
 	switch (op->kind) {
 	case OP_ENQ:
 		enq((int) op->v, NULL);
@@ -103,6 +122,7 @@ static void do_op(struct op *op)
 		usim_probe("lfq.node_recycled");
 		break;
 	}
+	stall_ord = 0;
 }
 
 static void *l_thread(void *arg)
@@ -161,11 +181,33 @@ void scen_lfq(void)
 			uint32_t x = rnd(100);
 			op->v = id++;
 			op->kind = x < 50 ? OP_ENQ : x < 88 ? OP_DEQ : OP_DEQ_REENQ;
+			op->a = rnd(3) == 0 ? 1 + (int) rnd(5) : 0;	/* suspended at its a-th atomic access ... */
+			op->b = 50 + (int) rnd(2500);			/* ... for b scheduler steps */
 			usim_describe("%s\"%s\"", i ? "," : "", opname[op->kind]);
 		}
 		usim_describe("]");
 	}
 	usim_describe("]");
+	/*
+	 * Roles (a third of the runs with >= 3 threads): one thread's enqueues are suspended between linking
+	 * the node and moving the tail, another's right after sampling the tail (for a long time), the rest
+	 * mostly dequeue: the states the quantifier of C12 names ("threads suspended between linking a node
+	 * and advancing the tail") next to nodes being reclaimed after a grace period.
+	 */
+	if (nthreads >= 3 && usim_param("roles", rnd(3) == 0)) {
+		for (t = 0; t < nthreads; t++)
+			for (i = 0; i < scripts[t].nops; i++) {
+				struct op *op = &scripts[t].ops[i];
+				if (t == 0) {
+					op->kind = OP_ENQ; op->a = 3; op->b = 200 + (int) rnd(2500);
+				} else if (t == 1) {
+					op->kind = OP_ENQ; op->a = 2; op->b = 1500 + (int) rnd(4000);
+				} else if (rnd(100) < 75) {
+					op->kind = OP_DEQ; op->a = rnd(3) ? 0 : 1 + (int) rnd(5);
+				}
+			}
+		usim_describe(",\"roles\":1");
+	}
 	script_apply_skips(scripts, nthreads);
 	for (t = 0; t < nthreads; t++)
 		if (!scripts[t].skip)
